@@ -362,8 +362,9 @@ theorem cleanStruct_spec {g : Graph N} (hg : g.WF) (hac : isAcyclic g = true) :
     (∀ x ∈ g.names, ∀ c, c ∈ (cleanStruct g).capsOf x ↔ FeedsG g c x) ∧
     (∀ e, e ∈ (cleanStruct g).edges ↔ e ∈ g.edges ∧ ∃ c ∈ g.capsOf e.2, FeedsG g c e.1) ∧
     (∀ x, ((cleanStruct g).capsOf x).Sublist (g.capsOf x)) := by
-  have h := CleanInv.foldl hg (topoOrder g) [] g (by simp) (CleanInv.init g)
-  simp only [List.nil_append] at h
+  have h : CleanInv g (cleanStruct g) (topoOrder g) := by
+    have := CleanInv.foldl hg (topoOrder g) [] g (by simp) (CleanInv.init g)
+    simpa [cleanStruct] using this
   refine ⟨h.names, fun x hx => h.caps x ((mem_topoOrder hac).2 hx), fun e => ?_, h.sub⟩
   rw [h.edges]
   exact and_congr_right fun he => ⟨fun h' => h' ((mem_topoOrder hac).2 (hg.edgesIn _ he).2), fun h' _ => h'⟩
@@ -385,6 +386,199 @@ theorem cleanStruct_edges {g : Graph N} (hg : g.WF) (hac : isAcyclic g = true) (
 
 theorem KeptG.live_left {g : Graph N} {a b : N} (h : KeptG g a b) (hb : LiveG g b) : LiveG g a :=
   ⟨by obtain ⟨c, hc, _⟩ := h.2; exact ⟨c, hc⟩, .step h hb.2⟩
+
+/-! ## §3 `rm_empty_units` and `chk_terminals` keep exactly the live units -/
+
+theorem mem_rmEmpty_dead {g : Graph N} (hg : g.WF) {u : N} (hu : u ∈ g.names) :
+    u ∈ (g.nodes.filter (fun n => n.caps.isEmpty)).map (·.name) ↔ g.capsOf u = [] := by
+  simp only [List.mem_map, List.mem_filter, List.isEmpty_iff]
+  constructor
+  · rintro ⟨n, ⟨hn, hc⟩, rfl⟩
+    rw [Graph.capsOf_of_mem hg.namesNodup hn]; exact hc
+  · intro h
+    obtain ⟨n, hn, rfl⟩ := Graph.mem_names.1 hu
+    rw [Graph.capsOf_of_mem hg.namesNodup hn] at h
+    exact ⟨n, ⟨hn, h⟩, rfl⟩
+
+theorem mem_rmEmpty_names {g : Graph N} (hg : g.WF) {u : N} :
+    u ∈ (rmEmpty g).names ↔ u ∈ g.names ∧ g.capsOf u ≠ [] := by
+  unfold rmEmpty
+  rw [Graph.mem_names_removeNodes]
+  exact and_congr_right fun hu => not_congr (mem_rmEmpty_dead hg hu)
+
+theorem mem_rmEmpty_edges {g : Graph N} (hg : g.WF) {e : N × N} :
+    e ∈ (rmEmpty g).edges ↔ e ∈ g.edges ∧ g.capsOf e.1 ≠ [] ∧ g.capsOf e.2 ≠ [] := by
+  unfold rmEmpty
+  rw [Graph.mem_edges_removeNodes]
+  refine and_congr_right fun he => and_congr ?_ ?_
+  · exact not_congr (mem_rmEmpty_dead hg (hg.edgesIn e he).1)
+  · exact not_congr (mem_rmEmpty_dead hg (hg.edgesIn e he).2)
+
+/-- after propagation and removal of capability-less units: the units that are fed something, and the kept connections -/
+theorem rmEmpty_cleanStruct_spec {g : Graph N} (hg : g.WF) (hac : isAcyclic g = true) :
+    (∀ u, u ∈ (rmEmpty (cleanStruct g)).names ↔ ∃ c, FeedsG g c u) ∧
+    (∀ a b, (a, b) ∈ (rmEmpty (cleanStruct g)).edges ↔ KeptG g a b) := by
+  have hcs := cleanStruct_spec hg hac
+  have hwf : (cleanStruct g).WF := hg.cleanStruct
+  have hne : ∀ u ∈ g.names, (cleanStruct g).capsOf u ≠ [] ↔ ∃ c, FeedsG g c u := by
+    intro u hu
+    rw [Ne, List.eq_nil_iff_forall_not_mem, Classical.not_forall]
+    exact exists_congr fun c => by rw [Classical.not_not, hcs.2.1 u hu]
+  constructor
+  · intro u
+    rw [mem_rmEmpty_names hwf, hcs.1]
+    constructor
+    · rintro ⟨hu, h⟩; exact (hne u hu).1 h
+    · rintro ⟨c, hc⟩; exact ⟨hc.mem_names hg, (hne u (hc.mem_names hg)).2 ⟨c, hc⟩⟩
+  · intro a b
+    rw [mem_rmEmpty_edges hwf, cleanStruct_edges hg hac]
+    constructor
+    · exact fun h => h.1
+    · intro h
+      obtain ⟨c, hc1, hc2⟩ := h.2
+      exact ⟨h, (hne a (hc1.mem_names hg)).2 ⟨c, hc1⟩, (hne b (hc2.mem_names hg)).2 ⟨c, hc2⟩⟩
+
+section Order
+variable [LT N] [DecidableRel (α := N) (· < ·)]
+
+/-- **the pruned graph of an accepted description**: exactly the live units and the kept connections between them -/
+theorem prepare_live {g g2 : Graph N} (hg : g.WF) (hp : prepare g = .ok g2) :
+    (∀ u, u ∈ g2.names ↔ LiveG g u) ∧ (∀ a b, (a, b) ∈ g2.edges ↔ KeptG g a b ∧ LiveG g a ∧ LiveG g b) := by
+  obtain ⟨hac, hchk, -, -⟩ := prepare_ok hp
+  have hs := rmEmpty_cleanStruct_spec hg hac
+  have hwf1 : (rmEmpty (cleanStruct g)).WF := hg.cleanStruct.rmEmpty
+  have hI : g2.Induced (rmEmpty (cleanStruct g)) := chkTerminals_ok_induced (Graph.Induced.refl hwf1) hchk
+  have hfin := chkTerminals_ok_final _ _ _ (Nat.lt_succ_self _) hchk
+  -- live units are never removed
+  have hkeep : g2.Induced (rmEmpty (cleanStruct g)) ∧ ∀ u, LiveG g u → u ∈ g2.names := by
+    refine chkTerminals_ok_inv (P := fun g' => g'.Induced (rmEmpty (cleanStruct g)) ∧ ∀ u, LiveG g u → u ∈ g'.names)
+      ?_ _ _ g2 ⟨Graph.Induced.refl hwf1, fun u hu => (hs.1 u).2 hu.1⟩ hchk
+    rintro g' ⟨hI', hP⟩ -
+    refine ⟨hI'.removeNodes _, fun u hu => Graph.mem_names_removeNodes.2 ⟨hP u hu, fun hdead => ?_⟩⟩
+    obtain ⟨hout, hno⟩ := List.mem_filter.1 hdead
+    simp only [Bool.not_eq_true', decide_eq_false_iff_not] at hno
+    have hsink := (Graph.mem_outPorts.1 hout).2
+    cases hu.2 with
+    | base ho => exact hno ho
+    | @step _ b hk hb =>
+      have hb' : LiveG g b := ⟨by obtain ⟨c, _, hc⟩ := hk.2; exact ⟨c, hc⟩, hb⟩
+      exact hsink b ((hI'.edges (u, b)).2 ⟨(hs.2 u b).2 hk, hP u hu, hP b hb'⟩)
+  -- every remaining unit reaches an original output port
+  have hreach : ∀ u ∈ g.names, u ∈ g2.names → ReachTo (KeptG g) (fun o => o ∈ g.outPorts) u := by
+    apply topo_succ_induction hac (P := fun u => u ∈ g2.names → ReachTo (KeptG g) (fun o => o ∈ g.outPorts) u)
+    intro u _ ih hu2
+    by_cases hsink : ∀ b, (u, b) ∉ g2.edges
+    · exact .base (hfin u (Graph.mem_outPorts.2 ⟨hu2, hsink⟩))
+    · obtain ⟨b, hb⟩ := Classical.not_forall.1 hsink
+      have hb := Classical.not_not.1 hb
+      have hb1 := (hI.edges (u, b)).1 hb
+      have hk : KeptG g u b := (hs.2 u b).1 hb1.1
+      exact .step hk (ih b (hg.edgesIn _ hk.1).2 hk.1 hb1.2.2)
+  have hlive : ∀ u, u ∈ g2.names ↔ LiveG g u := by
+    intro u
+    constructor
+    · intro hu
+      have h1 : u ∈ (rmEmpty (cleanStruct g)).names := hI.names_sublist.subset hu
+      obtain ⟨c, hc⟩ := (hs.1 u).1 h1
+      exact ⟨⟨c, hc⟩, hreach u (hc.mem_names hg) hu⟩
+    · exact hkeep.2 u
+  refine ⟨hlive, fun a b => ?_⟩
+  rw [hI.edges (a, b), hs.2, hlive, hlive]
+
+end Order
+
+/-! ## §4 transfer to the declarative reading `DG` -/
+
+theorem mem_dedup {α : Type} [DecidableEq α] {l : List α} {a : α} : a ∈ dedup l ↔ a ∈ l := by
+  induction l with
+  | nil => simp [dedup]
+  | cons x xs ih =>
+    simp only [dedup, List.mem_cons, List.mem_filter, ih, ne_eq, decide_not, Bool.not_eq_true',
+      decide_eq_false_iff_not]
+    by_cases h : a = x <;> simp [h]
+
+/-- the working graph `g` and the declarative reading `dg` describe the same capability graph -/
+structure DGMatch (dg : DG N) (g : Graph N) : Prop where
+  names : dg.names = g.names
+  conn : ∀ a b, dg.conn a b = true ↔ (a, b) ∈ g.edges
+  declares : ∀ u c, dg.declares u c = true ↔ c ∈ g.capsOf u
+
+namespace DGMatch
+variable {dg : DG N} {g : Graph N}
+
+theorem origIn (h : DGMatch dg g) (hg : g.WF) (i : N) : dg.origIn i = true ↔ i ∈ g.inPorts := by
+  unfold DG.origIn DG.preds
+  rw [Bool.and_eq_true, decide_eq_true_eq, List.isEmpty_iff, List.filter_eq_nil_iff, h.names, Graph.mem_inPorts]
+  refine and_congr_right fun _ => ⟨fun h' a ha => h' a (hg.edgesIn _ ha).1 ((h.conn a i).2 ha),
+    fun h' a _ hc => h' a ((h.conn a i).1 hc)⟩
+
+theorem origOut (h : DGMatch dg g) (hg : g.WF) (o : N) : dg.origOut o = true ↔ o ∈ g.outPorts := by
+  unfold DG.origOut DG.succs
+  rw [Bool.and_eq_true, decide_eq_true_eq, List.isEmpty_iff, List.filter_eq_nil_iff, h.names, Graph.mem_outPorts]
+  refine and_congr_right fun _ => ⟨fun h' a ha => h' a (hg.edgesIn _ ha).2 ((h.conn o a).2 ha),
+    fun h' a _ hc => h' a ((h.conn o a).1 hc)⟩
+
+theorem feeds (h : DGMatch dg g) (hg : g.WF) (c u : N) : dg.Feeds c u ↔ FeedsG g c u := by
+  unfold DG.Feeds FeedsG
+  rw [reachFrom_iff_walk]
+  constructor
+  · rintro ⟨r, hw, hd, ⟨i, hi, ho⟩, hl⟩
+    have hw' : WalkR (fun a b => (a, b) ∈ g.edges) r := WalkR.mono (fun a b hab => (h.conn a b).1 hab) hw
+    have hd' : ∀ x ∈ r, c ∈ g.capsOf x := fun x hx => (h.declares x c).1 (hd x hx)
+    have := (WalkR_and_forall (R := fun a b => (a, b) ∈ g.edges) (D := fun x => c ∈ g.capsOf x)).1 ⟨hw', hd'⟩
+    exact ⟨r, ⟨i, hi, (h.origIn hg i).1 ho, this.2 i hi⟩, this.1, hl⟩
+  · rintro ⟨r, ⟨i, hi, ho, hci⟩, hw, hl⟩
+    have := (WalkR_and_forall (R := fun a b => (a, b) ∈ g.edges) (D := fun x => c ∈ g.capsOf x)).2
+      ⟨hw, fun a ha => by rw [hi] at ha; cases ha; exact hci⟩
+    refine ⟨r, WalkR.mono (fun a b hab => (h.conn a b).2 hab) this.1,
+      fun x hx => (h.declares x c).2 (this.2 x hx), ⟨i, hi, (h.origIn hg i).2 ho⟩, hl⟩
+
+theorem keptConn (h : DGMatch dg g) (hg : g.WF) (a b : N) : dg.KeptConn a b ↔ KeptG g a b := by
+  unfold DG.KeptConn KeptG
+  rw [h.conn]
+  exact and_congr_right fun _ => exists_congr fun c => by rw [h.feeds hg, h.feeds hg]
+
+theorem live (h : DGMatch dg g) (hg : g.WF) (u : N) : dg.Live u ↔ LiveG g u := by
+  unfold DG.Live LiveG
+  rw [reachTo_iff_walk]
+  refine and_congr (exists_congr fun c => h.feeds hg c u) (exists_congr fun r => and_congr_right fun _ => and_congr ?_ ?_)
+  · exact exists_congr fun o => and_congr_right fun _ => h.origOut hg o
+  · exact ⟨WalkR.mono fun a b hab => (h.keptConn hg a b).1 hab, WalkR.mono fun a b hab => (h.keptConn hg a b).2 hab⟩
+
+end DGMatch
+
+section Order
+variable [LT N] [DecidableRel (α := N) (· < ·)]
+
+theorem dgOf_names (d : Desc N) : (dgOf fold d).names = d.units.map (·.name) := by
+  simp [DG.names, dgOf, List.map_map, Function.comp_def]
+
+/-- the graph `_create_graph` builds is the declarative reading of the description -/
+theorem createGraph_match {d : Desc N} {gr : Graph N × List N} (h : createGraph fold d = .ok gr) :
+    DGMatch (dgOf fold d) gr.1 := by
+  have hwf := createGraph_WF fold h
+  have hnodes := (createGraph_nodes fold h).1
+  refine ⟨by rw [dgOf_names, createGraph_names fold h], fun a b => ?_, fun u c => ?_⟩
+  · rw [createGraph_edges fold h]
+    simp only [DG.conn, dgOf]
+    exact decide_eq_true_iff
+  · simp only [DG.declares, dgOf, List.any_map, List.any_eq_true, Function.comp_def, Bool.and_eq_true, decide_eq_true_eq,
+      declared, mem_dedup]
+    constructor
+    · rintro ⟨x, hx, rfl, hc⟩
+      obtain ⟨n, hn, hno⟩ := forall₂_right hnodes x hx
+      rw [← hno.1, Graph.capsOf_of_mem hwf.namesNodup hn, hno.2.2.2.2.2.1]
+      exact hc
+    · intro hc
+      unfold Graph.capsOf at hc
+      split at hc
+      next n hn =>
+        have hn' := Graph.node?_some hn
+        obtain ⟨x, hx, hno⟩ := forall₂_left hnodes n hn'.1
+        exact ⟨x, hx, hno.1 ▸ hn'.2, (hno.2.2.2.2.2.1 c).1 hc⟩
+      · simp at hc
+
+end Order
 
 end Loader
 end ProcSim
